@@ -48,6 +48,10 @@ URL_NORMALISING = {
     "http://example.com/?q=a b#frag": "http://example.com/?q=a%20b#frag",
     "http://bücher.example/a": "http://xn--bcher-kva.example/a",
 }
+def url_expected_of(u):
+    return URL_NORMALISING.get(u, u)
+
+
 # strings Url::parse refuses (tier members are only validated, never normalised)
 BAD_URLS = ["", "notaurl", "http://", "://x", "http://exa mple.com/", "/relative", "http://[::1"]
 # node hosts as written on the command line, already in normal form (IPv6 in brackets)
@@ -146,6 +150,29 @@ def gen_case(r, given=None, tree_kind=None):
         cap = max(1, v * 600 // max(1, len(tree["files"])))
         for f in tree["files"]:
             f["size"] = min(f["size"], cap)
+    # values that COINCIDE across options (added after seeded change C05-12, a "redundant announce-list" clean-up that dropped
+    # the tier when it only repeated --announce): the tier list repeats the primary tracker, exactly or in another spelling
+    if c["announce"] is not None and c["tiers"] and r.random() < 0.4:
+        same = c["announce"]
+        alt = next((u for u, n in sorted(URL_NORMALISING.items()) if n == url_expected_of(same) and u != same), same)
+        k = r.randrange(5)
+        if k == 0:
+            c["tiers"] = [same]
+        elif k == 1:
+            c["tiers"] = [alt]
+        elif k == 2:
+            c["tiers"] = [same + "," + c["tiers"][0]] + c["tiers"][1:]
+        elif k == 3:
+            c["tiers"] = [same, same]
+        else:
+            c["tiers"] = [same + "," + same]
+        if c["update_url"] is not None and r.random() < 0.5:
+            c["update_url"] = same
+    if tree["kind"] == "dir" and r.random() < 0.3:
+        # the file order is part of what was requested (added after seeded change C05-10: --sort-by size lost its path
+        # tie-breaker); SIZES is small, so equal sizes are common
+        c["sort_by"] = r.choice([["size"], ["size:descending"], ["path:descending"], ["size", "path:descending"],
+                                 ["size:ascending"], ["path"]])
     c["md5"] = "md5" in given
     c["no_created_by"] = "no_created_by" in given
     c["no_creation_date"] = "no_creation_date" in given
@@ -187,9 +214,16 @@ def gen_malformed(r):
 
 # ---------------------------------------------------------------- running the real binary
 
-def tree_paths(tree):
-    """files in the walker's order: ascending by path (component lists compared bytewise)"""
-    return sorted(tree["files"], key=lambda f: [x.encode() for x in f["path"]])
+def tree_paths(tree, sort_by=None):
+    """files in the walker's order: the --sort-by keys in turn (`size`, `path`, each optionally `:descending`), remaining
+    ties in ascending path order (component lists compared bytewise) - the documented order; without --sort-by that is
+    ascending by path"""
+    files = sorted(tree["files"], key=lambda f: [x.encode() for x in f["path"]])
+    for spec in reversed(sort_by or []):          # stable sorts, least significant key first
+        key, _, direction = spec.partition(":")
+        kf = (lambda f: f["size"]) if key == "size" else (lambda f: [x.encode() for x in f["path"]])
+        files.sort(key=kf, reverse=(direction == "descending"))
+    return files
 
 
 def make_tree(root, tree, order):
@@ -248,6 +282,8 @@ def argv_of(c, extra_no_date=False):
         groups.append(("o", [pick("--piece-length", "-p"), c["piece_length"][0]]))
     if c["md5"]:
         groups.append(("o", [pick("--md5", "-M")]))
+    for spec in c.get("sort_by") or []:
+        groups.append(("sort", ["--sort-by", spec]))
     if c["no_created_by"]:
         groups.append(("o", ["--no-created-by"]))
     if c["no_creation_date"] or extra_no_date:
@@ -263,7 +299,7 @@ def argv_of(c, extra_no_date=False):
     # shuffle, keeping tiers and nodes in their relative order
     kinds = [g[0] for g in groups]
     r.shuffle(kinds)
-    it = {k: iter([g for g in groups if g[0] == k]) for k in ("o", "tier", "node")}
+    it = {k: iter([g for g in groups if g[0] == k]) for k in ("o", "tier", "node", "sort")}
     others = [g for g in groups if g[0] == "o"]
     r.shuffle(others)
     it["o"] = iter(others)
@@ -283,6 +319,26 @@ def output_path(c, root):
 
 
 TIME_ZONES = [None, "UTC", "XXX-5", "YYY8", "ZZZ-5:30", "AAA-14", "BBB12", None]
+
+
+_OTHER = []
+
+
+def other_base(base):
+    """a directory on a file system whose readdir order follows the creation order (tmpfs: newest first), so that the
+    're-created in another order' run really presents another enumeration order; ext4 hashes names, which hides the
+    order (added after seeded change C05-10). Falls back to `base`."""
+    if not _OTHER:
+        d = None
+        try:
+            if os.path.isdir("/dev/shm") and os.access("/dev/shm", os.W_OK):
+                d = tempfile.mkdtemp(prefix="c05-verif-", dir="/dev/shm")
+                import atexit
+                atexit.register(shutil.rmtree, d, True)
+        except OSError:
+            d = None
+        _OTHER.append(d)
+    return _OTHER[0] or base
 
 
 def run_once(ctx, c, order, no_date=False, base=None, force_over=None):
@@ -337,7 +393,7 @@ def url_expected(u):
 
 
 def hashes(c, piece_length):
-    files = tree_paths(c["tree"])
+    files = tree_paths(c["tree"], c.get("sort_by"))
     datas = [content_of(f["size"], f["word"]) for f in files]
     whole = b"".join(datas)
     pieces = b"".join(hashlib.sha1(whole[i:i + piece_length]).digest() for i in range(0, len(whole), piece_length)) if piece_length > 0 else b""
@@ -482,6 +538,11 @@ def model_line(c, now, git_suffix):
         fs = ";".join("%s:%d:%s" % ("/".join(lib.hexs(x.encode()) for x in f["path"]), f["size"], md5(content_of(f["size"], f["word"])))
                       for f in tree["files"])
         inp = "D:%s:%s" % (lib.hexs(tree["name"].encode()), fs or "~")
+        if c.get("sort_by"):
+            # with --sort-by the order is the documented one (C06's model proves the walker's sort); the model takes it as given
+            fs = ";".join("%s:%d:%s" % ("/".join(lib.hexs(x.encode()) for x in f["path"]), f["size"], md5(content_of(f["size"], f["word"])))
+                          for f in files)
+            inp = "O:%s:%s" % (lib.hexs(tree["name"].encode()), fs or "~")
     b = lambda x: "1" if x else "0"
     fields = ["mi",
               ",".join("%s:%s" % (lib.hexs(u.encode()), lib.hexs(URL_NORMALISING[u].encode())) for u in normtab) or "~",
@@ -616,7 +677,7 @@ def evaluate(ctx, c, version, base):
     order2 = ["reversed", "sorted-desc", "sorted"][c["style"] % 3]
     a = obs if not dated else run_once(ctx, c, "given", no_date=True, base=base)
     forced = c["output"] != "stdout" and a["bytes"] is not None and c["style"] % 2 == 0
-    b = run_once(ctx, c, order2, no_date=True, base=base,
+    b = run_once(ctx, c, order2, no_date=True, base=other_base(base),
                  force_over=(a["bytes"] + b"l" + b"4:junk" * 120 + b"e") if forced else None)
     res["rerun"] = (a, b)
     rp = []
